@@ -22,7 +22,7 @@ CONFIGS = {
                ('collide', ('H_X', 'M_XC', 'T_XC', 'O_XC', 2, 3), 150, 3, 2)], 3),
     'thorough': ([('mixed', ('H_X', 'M_X', 'T_X', 'O_X', 3, 3), 900, 4, 4), ('par-calls', ('H_X', 'M_XP', 'T_XP', 'O_XP', 3, 3), 20000, 2, 1),
                   ('legal', ('H_X', 'M_X', 'T_X', 'O_X', 3, 3), 15000, 1, 1),
-                  ('collide', ('H_X', 'M_XC', 'T_XC', 'O_XC', 3, 3), 3000, 4, 2)], 4),
+                  ('collide', ('H_X', 'M_XC', 'T_XC', 'O_XC', 3, 3), 400, 4, 2)], 4),
 }
 OVRS = [[], [('a', 2)], [('n', 1)], [('a', 0), ('n', 3)]]
 
